@@ -211,13 +211,15 @@ impl C03Deep {
             ("array-closed", "end-in"), ("object-closed", "fail-in"), ("array-closed", "fail-after-root"), ("object-closed", "ws-fail-after-root"), ("mixed-closed", "ws-garbage-after-root"),
         ];
         let depths_quick: &[u64] = &[1_000, 10_000, 100_000, 300_000, 1_000_000];
-        let depths_thorough: &[u64] = &[1_000, 10_000, 100_000, 300_000, 1_000_000, 2_000_000];
+        let depths_thorough: &[u64] = &[1_000, 10_000, 100_000, 300_000, 1_000_000, (1 << 20) + 1, 2_000_000, (1 << 21) + 1, (1 << 22) + 1];
         let (shape, tail) = if (run as usize) < fixed.len() { let f = fixed[run as usize]; (f.0.to_string(), f.1.to_string()) } else {
             let shape = rng.pick(&SHAPES).to_string();
             let tail = if shape.ends_with("-open") { "none".to_string() } else { rng.pick(&super::deep::TAILS).to_string() };
             (shape, tail)
         };
-        let depth = if run == 0 { 1_000_000 } else if self.thorough { *rng.pick(depths_thorough) } else { *rng.pick(depths_quick) };
+        // runs 1..=3 (array-open, object-closed, object-open): one step past 2^21 — growth policies of the
+        // explicit stack change at powers of two, and the largest one below the usual 2·10^6 is 2^20
+        let depth = if run == 0 { 1_000_000 } else if (1..=3).contains(&run) { (1 << 21) + 1 } else if self.thorough { *rng.pick(depths_thorough) } else { *rng.pick(depths_quick) };
         let stack_kib = *rng.pick(&[64u64, 128, 256]);
         let tail_at = match rng.below(5) { 0 => depth / 2, 1 => depth.saturating_sub(1), 2 => 1.min(depth), 3 => depth, _ => rng.range(0, depth) };
         let needs_iter = tail.contains("fail");
